@@ -11,10 +11,10 @@ import shutil
 import subprocess
 import sys
 
-PROPS = ['C%02d' % i for i in range(1, 21) if i != 19]
+PROPS = ['C%02d' % i for i in range(1, 21)]
 RELATED = {
     'format_inspector.py': ['C01', 'C02', 'C03', 'C05', 'C06', 'C07'],
-    'cli.py': ['C02'], 'strutils.py': ['C04', 'C08', 'C10', 'C14', 'C16'],
+    'cli.py': ['C02'], 'strutils.py': ['C04', 'C08', 'C10', 'C14', 'C16', 'C19'],
     'netutils.py': ['C11', 'C15'], 'timeutils.py': ['C12', 'C13', 'C09'],
     'fixture.py': ['C12'], 'excutils.py': ['C09'],
     'fileutils.py': ['C09', 'C20'], 'encodeutils.py': ['C16', 'C04'],
